@@ -121,46 +121,53 @@ Inductive bact :=
 Definition has_sent (obs_live : Z -> bool) (c : caches) (tok : list Z) : bool :=
   zmem (crc64 tok) (ca_send c) || obs_live (crc64 tok).
 
-(* blockWise.Handle for one message: new caches, the message handed to [next] (if any), the other effect *)
+(* processReceivedMessage from the cache look-up on: [tok] is the token under which the transfer runs
+   (the drawn one for a notification, the message's own otherwise), [c1] the caches after
+   handleObserveResponse *)
+Definition bw_reasm (c1 : caches) (tok : list Z) (m : wmsg) (szx num : Z) (more : bool)
+  : caches * option msg * list bact :=
+  let key := crc64 tok in
+  match rget key (ca_recv c1), more with
+  | None, false =>
+      (* no transfer under way and no further block: forwarded as it is; a last block with NUM > 0 is refused *)
+      if num =? 0 then (c1, Some (plain m), []) else (c1, None, [BErr])
+  | cached, _ =>
+      let cm0 := match cached with Some cm => cm | None => open_entry m end in
+      let cm1 := retag cm0 m in
+      if num * size szx =? bsize (c_body cm1) then
+        let cm2 := mkC (c_tok cm1) (c_code cm1) (c_obs cm1) (c_etag cm1) (add_chunk (c_body cm1) (w_tag m) (w_len m)) in
+        if negb more then
+          let r2 := rdel key (ca_recv c1) in
+          let s2 := if bytes_eqb (c_tok cm2) tok then ca_send c1 else zdel key (ca_send c1) in
+          (mkCa s2 r2, Some (mkMsg (c_tok cm2) (c_code cm2) (c_obs cm2) (btag (c_body cm2))), [])
+        else
+          (mkCa (ca_send c1) (rset key cm2 (ca_recv c1)), None, [BGet tok szx (bsize (c_body cm2) / size szx)])
+      else
+        (mkCa (ca_send c1) (rset key cm1 (ca_recv c1)), None, [BGet tok szx (bsize (c_body cm1) / size szx)])
+  end.
+
+(* processReceivedMessage for a message with a token and a Block2 option *)
+Definition bw_block (obs_live : Z -> bool) (c : caches) (m : wmsg) (fresh : list Z) (szx num : Z) (more : bool)
+  : caches * option msg * list bact :=
+  if negb ((0 <=? szx) && (szx <=? 6)) then (c, None, [BOther])
+  else if negb (has_sent obs_live c (w_tok m)) then (c, None, [BErr])   (* "cannot request body without paired request" *)
+  else if is_obs m then
+    if negb more then
+      (* a token is drawn and stored but never used; nothing is cached under it *)
+      if num =? 0 then (c, Some (plain m), []) else (c, None, [BErr])
+    else if zmem (crc64 fresh) (ca_send c) then (c, None, [BErr])
+    else bw_reasm (mkCa (crc64 fresh :: ca_send c) (ca_recv c)) fresh m szx num true
+  else bw_reasm c (w_tok m) m szx num more.
+
+(* blockWise.Handle for one message: new caches, the message handed to [next] (if any), the other effect.
+   A message without token or without Block2 option is handed on as it is. *)
 Definition bw_layer (obs_live : Z -> bool) (c : caches) (m : wmsg) (fresh : list Z)
   : caches * option msg * list bact :=
-  match w_tok m with
-  | [] => if resp_code (w_code m) then (c, Some (plain m), []) else (c, None, [BOther])
-  | _ =>
   if negb (resp_code (w_code m)) then (c, None, [BOther])
-  else
-  match w_b2 m with
-  | None => (c, Some (plain m), [])
-  | Some (szx, num, more) =>
-      if negb ((0 <=? szx) && (szx <=? 6)) then (c, None, [BOther])
-      else if negb (has_sent obs_live c (w_tok m)) then (c, None, [BErr])
-      else if is_obs m && negb more then
-        (* a token is drawn and stored but never used; nothing is cached under it *)
-        if num =? 0 then (c, Some (plain m), []) else (c, None, [BErr])
-      else if is_obs m && zmem (crc64 fresh) (ca_send c) then (c, None, [BErr])
-      else
-        let c1 := if is_obs m then mkCa (crc64 fresh :: ca_send c) (ca_recv c) else c in
-        let tok := if is_obs m then fresh else w_tok m in
-        let key := crc64 tok in
-        match rget key (ca_recv c1), more with
-        | None, false =>
-            if num =? 0 then (c1, Some (plain m), []) else (c1, None, [BErr])
-        | cached, _ =>
-            let cm0 := match cached with Some cm => cm | None => open_entry m end in
-            let cm1 := retag cm0 m in
-            if num * size szx =? bsize (c_body cm1) then
-              let cm2 := mkC (c_tok cm1) (c_code cm1) (c_obs cm1) (c_etag cm1) (add_chunk (c_body cm1) (w_tag m) (w_len m)) in
-              if negb more then
-                let r2 := rdel key (ca_recv c1) in
-                let s2 := if bytes_eqb (c_tok cm2) tok then ca_send c1 else zdel key (ca_send c1) in
-                (mkCa s2 r2, Some (mkMsg (c_tok cm2) (c_code cm2) (c_obs cm2) (btag (c_body cm2))), [])
-              else
-                (mkCa (ca_send c1) (rset key cm2 (ca_recv c1)), None, [BGet tok szx (bsize (c_body cm2) / size szx)])
-            else
-              (mkCa (ca_send c1) (rset key cm1 (ca_recv c1)), None, [BGet tok szx (bsize (c_body cm1) / size szx)])
-        end
-  end
-  end.
+  else match w_tok m, w_b2 m with
+       | _ :: _, Some (szx, num, more) => bw_block obs_live c m fresh szx num more
+       | _, _ => (c, Some (plain m), [])
+       end.
 
 (* ---------- the connection: block-wise layer + observation handler ---------- *)
 Record bst := mkB { b_o : st; b_c : caches }.
